@@ -203,3 +203,47 @@ def place_ty(cr, f, place, body=None):
         else:
             variant = None
     return ty, variant
+
+
+def fmt_template(hexbytes):
+    """decode a core::fmt::Arguments template (this toolchain's byte encoding) back to format-string source form:
+    literal text with `{{`/`}}` escapes and `{}` for every placeholder; None if the encoding is not understood"""
+    try:
+        b = bytes.fromhex(hexbytes)
+    except ValueError:
+        return None
+    out = []
+    i = 0
+    while i < len(b):
+        c = b[i]
+        i += 1
+        if c == 0:
+            return "".join(out)
+        if c < 0x80:
+            lit = b[i:i + c]
+            i += c
+        elif c == 0x80:
+            n = b[i] | (b[i + 1] << 8)
+            i += 2
+            lit = b[i:i + n]
+            i += n
+        elif c >= 0xC0:
+            opts = c & 0x3F
+            # option bits: 1 flags(u32) 2 width(u16) 4 precision(u16) 8 arg index(u16)
+            if opts & 1:
+                i += 4
+            if opts & 2:
+                i += 2
+            if opts & 4:
+                i += 2
+            if opts & 8:
+                i += 2
+            out.append("{}" if opts == 0 else "{:?}")
+            continue
+        else:
+            return None
+        try:
+            out.append(lit.decode("utf-8").replace("{", "{{").replace("}", "}}"))
+        except UnicodeDecodeError:
+            return None
+    return "".join(out)
